@@ -76,7 +76,7 @@ def run(ctx):
             for pre in ("longer", "junk", "junk-last", "junk-first"):
                 if pre in ("junk-last", "junk-first") and not (ext in RESTART and t.n_frames > 1):
                     continue
-                path = os.path.join(ctx.scratch, "exist" + ext)
+                path = os.path.join(ctx.scratch, "Exist_A" + ext)        # mixed case on purpose: the existence test must look at the path as given
                 fresh = os.path.join(ctx.scratch, "fresh" + ext)
                 multi_restart = ext in RESTART and t.n_frames > 1
                 targets = [path]
